@@ -81,6 +81,25 @@ def run(tier="quick", seed=0):
                                                  "why": "array converter gives %r, scalar %r" % (int(g), conv(v)),
                                                  "inputs": {"signed": signed, "n_bits": n_bits, "n_frac": n_frac, "value": repr(v)}})
                                 break
+                    # ... also for arrays of single- and half-precision floats (an array of floats need not hold doubles): every
+                    # element is a float in its own right, the scalar converter given that same value is the reference
+                    for ftype, label in ((np.float32, "float32"), (np.float16, "float16")):
+                        with warnings.catch_warnings():
+                            warnings.simplefilter("ignore")
+                            small = np.array(vs, dtype=float).astype(ftype)
+                            small = small[np.isfinite(small) & np.isfinite(small.astype(float) * 2.0 ** n_frac)
+                                          & np.isfinite((small * ftype(2.0) ** n_frac).astype(float))]
+                            if not len(small):
+                                continue
+                            ev += 1
+                            got = nc(small)
+                        for g, v in zip(got.ravel().tolist(), small.astype(float).ravel().tolist()):
+                            if int(g) != conv(v):
+                                if len([x for x in viol if x["clause"].startswith("numpy")]) < 3:
+                                    viol.append({"id": "np%s_%d" % (label, ev), "clause": "numpy_agrees_%d" % n_bits,
+                                                 "why": "array converter on a %s array gives %r, scalar converter on the same value %r" % (label, int(g), conv(v)),
+                                                 "inputs": {"signed": signed, "n_bits": n_bits, "n_frac": n_frac, "value": repr(v), "array_dtype": label}})
+                                break
                     nb = tc.NumpyFixToFloatConverter(n_frac)
                     ints = np.array([lo, hi, 0, 1], dtype=nc.dtype)
                     ev += 1
